@@ -306,12 +306,14 @@ theorem sameCfg_hFlush (c : Cp) : SameCfg c (Cp.hFlush c).1 := by
   · split
     · split
       · exact SameCfg.rfl' c
-      · have h := sameCfg_fold (fun i => ⟨.flush, i, 0⟩) c.ordFlush c
-        dsimp only
-        split
-        · exact h
-        · refine SameCfg.trans' h ?_
-          split <;> exact SameCfg.rfl' _
+      · split
+        · exact SameCfg.rfl' c
+        · have h := sameCfg_fold (fun i => ⟨.flush, i, 0⟩) c.ordFlush c
+          dsimp only
+          split
+          · exact h
+          · refine SameCfg.trans' h ?_
+            split <;> exact SameCfg.rfl' _
     · exact SameCfg.rfl' c
 
 theorem sameCfg_hCtrl (c : Cp) : SameCfg c (Cp.hCtrl c).1 := by
@@ -321,7 +323,9 @@ theorem sameCfg_hCtrl (c : Cp) : SameCfg c (Cp.hCtrl c).1 := by
   · split
     · split <;> exact SameCfg.rfl' c
     · exact SameCfg.rfl' c
-    · split <;> exact SameCfg.rfl' c
+    · split
+      · exact SameCfg.rfl' c
+      · split <;> exact SameCfg.rfl' c
     · have h := sameCfg_fold (fun i => ⟨.restart, i, 0⟩) c.ordRestart c
       dsimp only
       split
